@@ -54,25 +54,27 @@ def calibrate(req):
     runner = c12_ops.Runner()
     out = {'sheets': {}, 'styles': {}, 'direct': {}, 'imported': {}}
     p = cssutils.CSSParser()
+    def measure(f):
+        del calls[:]
+        try:
+            f()
+        except Exception as e:      # noqa: B902 -- in log mode nothing should raise; report what did
+            return 'EXC:%s' % type(e).__name__
+        return ''.join(calls)
     for t in c12_ops.SHEETS:
-        del calls[:]
-        p.parseString(t)
-        out['sheets'][t] = ''.join(calls)
+        out['sheets'][t] = measure(lambda: p.parseString(t))
     for t in c12_ops.STYLES:
-        del calls[:]
-        p.parseStyle(t)
-        out['styles'][t] = ''.join(calls)
+        out['styles'][t] = measure(lambda: p.parseStyle(t))
     for name, (expr, _) in c12_ops.DIRECT.items():
-        sheet = runner._edit_sheet()
-        del calls[:]
-        eval(expr, {'cssutils': cssutils, '_SHEET': sheet})
-        out['direct'][name] = ''.join(calls)
+        try:
+            sheet = runner._edit_sheet()
+        except Exception:           # noqa: B902
+            sheet = None
+        out['direct'][name] = measure(lambda: eval(expr, {'cssutils': cssutils, '_SHEET': sheet}))
         runner.sheet = None
     for kind in c12_ops.IMPORTED:
         pf = cssutils.CSSParser(fetcher=runner.fetcher(kind))
-        del calls[:]
-        pf.parseString('@import "u.css";', href='http://c12.invalid/base/')
-        out['imported'][kind] = ''.join(calls)
+        out['imported'][kind] = measure(lambda: pf.parseString('@import "u.css";', href='http://c12.invalid/base/'))
     return out
 
 
